@@ -122,8 +122,19 @@ func (x *txnCtx) resolve(t Target) (uint32, bool) {
 			return 0, false
 		}
 		return st[t.K%len(st)], true
-	case "own":
-		own := x.w.conc.own[x.thread]
+	case "own", "own-nottl":
+		var own []uint32
+		for _, o := range x.w.conc.own[x.thread] {
+			if r, live := x.w.model.Rows[o]; live {
+				// rows the cleanup (or a rollback) removed meanwhile are skipped; "own-nottl" also
+				// skips rows the cleanup may remove before this transaction commits (deleting by
+				// offset a row that expired and whose offset was handed out again is out of contract)
+				if d, has := r["expire"]; t.Mode == "own-nottl" && has && d.U != 0 {
+					continue
+				}
+				own = append(own, o)
+			}
+		}
 		if len(own) == 0 {
 			return 0, false
 		}
@@ -144,6 +155,12 @@ func (x *txnCtx) execOp(op *Op) {
 	w := x.w
 	switch op.Kind {
 	case "insert":
+		if w.ttl != nil && w.avoid["ttl-change-during-pass"] {
+			if w.ttl.inPass {
+				return // see the gate in runTTLInBubble: no new occupant of an offset while a pass runs
+			}
+			x.noteTTLWrite()
+		}
 		x.insert(op, "")
 	case "insertkey", "upsertkey":
 		x.keyed(op)
